@@ -329,3 +329,53 @@ def group_key(paulis, n):
                 rows[i] = mul(rows[piv], p)
         res.append(piv)
     return tuple(sorted(rows[i] for i in res))
+
+
+def reduce_in_group(gens, g, n):
+    """express g through the independent signed generators: returns the residual Pauli g * (product of generators);
+    (0, 0, k) means (+1 if k == 0, -1 if k == 2) * g lies in the group"""
+    rows = list(gens)
+    piv = []
+    used = [False] * len(rows)
+    for bit in range(2 * n):
+        def has(p):
+            return ((p[0] | (p[1] << n)) >> bit) & 1
+        c = None
+        for i, p in enumerate(rows):
+            if not used[i] and has(p):
+                c = i
+                break
+        if c is None:
+            continue
+        used[c] = True
+        for i, p in enumerate(rows):
+            if i != c and has(p):
+                rows[i] = mul(rows[c], p)
+        piv.append((bit, c))
+    r = g
+    for bit, c in piv:
+        if ((r[0] | (r[1] << n)) >> bit) & 1:
+            r = mul(rows[c], r)
+    return r
+
+
+def stabilizer_overlap2(sa, sb, n):
+    """|<a|b>|^2 of two stabilizer states given by independent signed generators: project a onto the generators of b one
+    by one; a commuting generator must be in a's group with the right sign (else 0), an anticommuting one halves the overlap"""
+    cur = list(sa)
+    f = 1.0
+    for g in sb:
+        anti = [i for i, p in enumerate(cur) if not commute(p, g)]
+        if anti:
+            i0 = anti[0]
+            for i in anti[1:]:
+                cur[i] = mul(cur[i0], cur[i])
+            cur[i0] = g
+            f *= 0.5
+        else:
+            r = reduce_in_group(cur, g, n)
+            assert r[0] == 0 and r[1] == 0, "commuting Pauli outside a maximal stabilizer group"
+            if r[2] % 4 == 2:
+                return 0.0
+            assert r[2] % 4 == 0
+    return f
